@@ -869,6 +869,11 @@ def run(prop, seed, budget, ctx):
             failures += sf_; distinct |= sd_; dn += sn_
             for k_, v_ in sh_.items(): hist[k_] += v_
             for f in sf_: hist["P:" + f["why"][0].split(":")[0]] += 1
+            import corners7
+            hf_, hn_, hd_, hh_ = corners7.run_part("C03", seed, budget)
+            failures += hf_; distinct |= hd_; dn += hn_
+            for k_, v_ in hh_.items(): hist[k_] += v_
+            for f in hf_: hist["P:" + f["why"][0].split(":")[0]] += 1
             import defconv_hist
             hf_, hn_, hd_, hh_ = defconv_hist.run_part(seed, budget)
             failures += hf_; distinct |= hd_; dn += hn_
@@ -885,6 +890,11 @@ def run(prop, seed, budget, ctx):
         vf, vn, vd = engine_validate.e2e_locations(seed, budget)
         for f in vf: hist["P:" + f["why"][0]] += 1
         failures += vf; distinct |= vd; hist["validator-classes-under-an-aliaser"] = vn
+        import corners7
+        gf, gn, gd, gh = corners7.run_part("C02", seed, budget)
+        failures += gf; distinct |= gd; vn += gn
+        for k_, v_ in gh.items(): hist[k_] += v_
+        for f in gf: hist["P:" + f["why"][0].split(":")[0]] += 1
         import objmodel
         gf, gn, gd, gh = objmodel.run_part("C02", seed, budget)
         failures += gf; distinct |= gd; vn += gn
